@@ -236,21 +236,31 @@ def build_recording(tier):
             f.write(open(prec).read())
     # C13: repeated and re-scheduled runs on the accepted multi-controller cases
     multi = os.path.join(sc, "multi.cases")
-    ids, twins = [], []
+    ids, twins, spreads = [], [], []
     for line in open(rec):
         r_ = json.loads(line)
         m = r_["runs"].get("main")
-        if m and m["exit"] == 0 and len(r_["case"]["ctrls"]) >= 2:
-            names = [x["name"] for x in r_["case"]["ctrls"]]
-            imported = any("." in p_["type"] and not p_["type"].startswith("context.") for m_ in r_["case"]["methods"] for p_ in m_["sig"]) or \
-                any("." in t_ for m_ in r_["case"]["methods"] for t_ in m_["ret"])
-            # controllers sharing a struct name across packages and using imported types: every ordering by name alone is ambiguous there
-            (twins if len(set(names)) < len(names) and imported else ids).append(r_["id"])
+        if not (m and m["exit"] == 0):
+            continue
+        names = [x["name"] for x in r_["case"]["ctrls"]]
+        imported = any("." in p_["type"] and not p_["type"].startswith("context.") for m_ in r_["case"]["methods"] for p_ in m_["sig"]) or \
+            any("." in t_ for m_ in r_["case"]["methods"] for t_ in m_["ret"])
+        files_of = collections.defaultdict(set)
+        for m_ in r_["case"]["methods"]:
+            files_of[m_["ctrl"]].add(m_["file"])
+        if len(set(names)) < len(names) and imported:
+            twins.append(r_["id"])      # controllers sharing a struct name across packages, with imported types: ordering by name alone is ambiguous
+        elif any(len(v_) >= 2 for v_ in files_of.values()):
+            spreads.append(r_["id"])    # a controller whose methods live in several files: the order in which files are met orders its handlers
+        elif len(names) >= 2:
+            ids.append(r_["id"])
     rng.shuffle(ids)
     rng.shuffle(twins)
-    n13 = 200 if thorough else 10
-    twins = twins[:n13 // 2]
-    ids = set(twins + ids[:n13 - len(twins)])
+    rng.shuffle(spreads)
+    n13 = 200 if thorough else 12
+    twins = twins[:n13 // 3]
+    spreads = spreads[:n13 // 3]
+    ids = set(twins + spreads + ids[:n13 - len(twins) - len(spreads)])
     with open(multi, "w") as f:
         for line in open(cases):
             if line.startswith('"CASE '):
@@ -259,7 +269,7 @@ def build_recording(tier):
                     f.write(line)
     rec13 = os.path.join(d, "records13.ndjson")
     if ids:
-        pipe_run(v, g, multi, rec13, work, ["--alt=false", "--validate=false", "--repeat", "4" if thorough else "2", "--orders", ORDERS if thorough else ORDERS_QUICK])
+        pipe_run(v, g, multi, rec13, work, ["--alt=false", "--validate=false", "--repeat", "6" if thorough else "3", "--orders", ORDERS if thorough else ORDERS_QUICK])
     else:
         open(rec13, "w").close()
     shutil.rmtree(work, ignore_errors=True)
